@@ -741,9 +741,15 @@ func zvStep(r *vh.Run, c *zvCfg, alphabet []zvOp, hist []zvOp) (string, []zvOp, 
 			adjGot[fmt.Sprintf("%s id=%d ann=%d", ps, e.PathID, e.MED)]++
 		}
 	}
+	adjOptional := map[string]int{} // ineligible announcements: keeping them (hidden) or dropping them is both fine
 	for p := range stored {
 		for _, st := range stored[p] {
-			adjWant[fmt.Sprintf("%s id=%d ann=%d", zvPfxStr[p], st.ID, c.Vars[st.V].ID)]++
+			k := fmt.Sprintf("%s id=%d ann=%d", zvPfxStr[p], st.ID, c.Vars[st.V].ID)
+			if el, _ := c.eligible(&c.Vars[st.V]); !el {
+				adjOptional[k]++
+				continue
+			}
+			adjWant[k]++
 		}
 		// lookups of the Adj-RIB-In trie that decide the future (nil vs. route)
 		fmt.Fprintf(&canon, "G%d=%v ", p, a.Get(pfx[p]) != nil)
@@ -765,6 +771,11 @@ func zvStep(r *vh.Run, c *zvCfg, alphabet []zvOp, hist []zvOp) (string, []zvOp, 
 	}
 
 	// clause adjribin: the Adj-RIB-In holds exactly the stored announcements
+	for k, n := range adjOptional {
+		if adjGot[k] > 0 && adjGot[k] <= n {
+			adjWant[k] = adjGot[k]
+		}
+	}
 	if m, x := diff(adjGot, adjWant); len(m)+len(x) > 0 {
 		viol(vh.Sig("clause", "adjribin"), "Adj-RIB-In dump differs from the stored announcements: missing %v, extra %v", m, x)
 	}
